@@ -115,6 +115,11 @@ CHECKS["C19"] = {
   "note": "exact reals; planar hull only (2 and 3 hull dimensions need 3-D/4-D qhull and Delaunay interpolation: outside); general position assumed; hull stub validated against qhull on every replay; one repaired defect (zero distance for a point below the hull on an extended facet)",
   "technique": TECH,
 }
+CHECKS["C17"] = {
+  "text": "PARTIAL (the decidable fragment of C17). The real _NearestGridAssigner (free space and a periodic 1-D cell) is executed on symbolic descriptors, weights and grid points: every descriptor goes to a nearest grid point, member lists partition the descriptors, grid weights are the sums of the assigned (normalised) weights and total one. SparseKDE.score_samples/_computes_kernel_density_estimation is executed on a fitted state (assignment from the real assigner; symbolic symmetric inverse bandwidths and log-normalisations; log, sin, cos, arctan2 uninterpreted, logsumexp a formal multiset): the multiset of Gaussian terms equals the documented mixture (grid-level term beyond the Mahalanobis cut-off, descriptor-level terms of that cell otherwise, only a descriptor identical to the query excluded, empty cells skipped, normalised by the total weight), for free queries, a query equal to a descriptor and a query sharing one coordinate with a descriptor. A refit history fit -> cache access -> fit on another grid -> score_samples (bandwidth estimation replaced by arbitrary symbolic positive bandwidths) must give the mixture of the CURRENT fit. _covariance (free space) is symmetric, translation and permutation invariant and a non-negative quadratic form; the periodic variant is compared under a whole-cell shift.",
+  "design_ref": "DESIGN.md 2/C17",
+  "note": "exact reals with uninterpreted transcendental functions: only the STRUCTURE of the mixture is decided, not its numeric value; NOT covered (no installed solver reasons about exp/log/eigenvalues/non-integer powers): bandwidth estimation in fit (localisation tuners, effdim, oas shrinkage, Silverman factor, positive definiteness), invariances of the final log-density; one repaired defect (IndexError for empty Voronoi cells), one open known finding (periodic covariance not invariant under whole-cell shifts; the expected numbers of an existing test pin the formula)",
+  "technique": TECH,
+}
 NOT_APPLICABLE = {
- "C17": "solver-based checking cannot decide the core of this property: score_samples is a log-sum-exp of Gaussians and the bandwidths come from data-dependent while-loops over exp / effective dimension (eigenvalues + log) / non-integer powers; z3 and cvc5 have no transcendental reasoning and uninterpreted exp/log leave the mixture formula, positive definiteness after shrinkage and translation invariance of the log-density undecided. The decidable fragment (nearest-grid assignment, weight sums, free-space covariance algebra) was not built in the time available, so nothing is claimed.",
 }
